@@ -8,7 +8,7 @@
 EXTENDS Grid, Json, IOUtils
 ASSUME \A L \in AllLayouts \cup Esri : ThLayout(L)
 PairLayouts == Layouts({"uniform"}, PairDims) \cup Esri
-CompatLayouts == Layouts({"uniform", "rect"}, {<<2, 3>>, <<3, 2>>, <<3>>, <<3, 3>>})
+CompatLayouts == Layouts({"uniform", "rect", "rectb"}, {<<2, 3>>, <<3, 2>>, <<3>>, <<3, 3>>})
 ASSUME \A L1 \in Layouts({"uniform"}, {<<2, 3>>, <<3>>}), L2 \in CompatLayouts : ThPair(L1, L2)
 
 MemoOps == {"shape", "size", "npoints", "cells", "points", "copy"}
@@ -21,7 +21,10 @@ Out ==
   CASE IOEnv.WHAT = "layout" -> SetToSeq({[what |-> "layout", L |-> L] : L \in AllLayouts \cup Esri})
     [] IOEnv.WHAT = "memo"   -> SetToSeq({[what |-> "memo", L |-> L, ops |-> s] : L \in MemoLayouts, s \in MemoSeqs})
     [] IOEnv.WHAT = "canon"  -> SetToSeq({[what |-> "canon", L |-> L, field |-> FieldC(L)] : L \in PairLayouts \cup Layouts({"rect"}, {<<3, 2>>, <<2, 2, 3>>})})
-    [] IOEnv.WHAT = "compat" -> SetToSeq({[what |-> "compat", src |-> a, dst |-> b] : a \in Layouts({"uniform"}, {<<2, 3>>, <<3>>}), b \in CompatLayouts})
+    [] IOEnv.WHAT = "compat" -> SetToSeq({[what |-> "compat", src |-> a, dst |-> b] : a \in Layouts({"uniform"}, {<<2, 3>>, <<3>>}), b \in CompatLayouts}
+                                          \cup {[what |-> "compat", src |-> a, dst |-> b] :
+                                                 a \in {L \in Layouts({"rect"}, {<<3, 3>>, <<3>>}) : L.order = "F" /\ ~L.rev},
+                                                 b \in {L \in Layouts({"rect", "rectb"}, {<<3, 3>>, <<3>>}) : L.order = "F"}})
     [] IOEnv.WHAT = "link"   -> SetToSeq({[what |-> "link", src |-> pr[1], dst |-> pr[2], masked |-> m, field |-> FieldC(pr[1])] :
                                            pr \in {q \in PairLayouts \X PairLayouts : GoodLink(q[1], q[2])}, m \in BOOLEAN})
 ASSUME ndJsonSerialize(IOEnv.OUT_FILE, Out)
